@@ -215,7 +215,12 @@ class Processor:
                 f"Processor::set_value:  Seeking required node at {yaml_path}."
             )
             found_nodes: int = 0
-            for req_node in self._get_required_nodes(self.data, yaml_path):
+            # Gather every match before changing any of them (as delete_nodes
+            # does); changing nodes while the search generators are still
+            # iterating the same containers corrupts the search.
+            for req_node in list(
+                self._get_required_nodes(self.data, yaml_path)
+            ):
                 found_nodes += 1
                 self._apply_change(yaml_path, req_node, value,
                     value_format=value_format, tag=tag)
@@ -230,9 +235,9 @@ class Processor:
                 "Processor::set_value:  Seeking optional node at {}."
                 .format(yaml_path)
             )
-            for node_coord in self._get_optional_nodes(
+            for node_coord in list(self._get_optional_nodes(
                 self.data, yaml_path, value
-            ):
+            )):
                 self._apply_change(yaml_path, node_coord, value,
                     value_format=value_format, tag=tag)
 
